@@ -1,0 +1,16 @@
+//go:build verif
+
+package consul
+
+// Read-only export for the correspondence check of property C14 (/verif): the real
+// ServiceMonitor.makeConfig (per-service goroutines, catalog lookups, routecmd.build,
+// reverse sort, join) on an already filtered list of passing checks.
+
+import (
+	"github.com/hashicorp/consul/api"
+)
+
+// VerifC14MakeConfig is ServiceMonitor.makeConfig.
+func VerifC14MakeConfig(m *ServiceMonitor, checks []*api.HealthCheck) string {
+	return m.makeConfig(checks)
+}
